@@ -756,12 +756,24 @@ pub fn faults_cmd(args: &[String]) {
                     let cur = read_le(&bytes, f.off, f.width);
                     for v in boundary_values(f.width, cur) {
                         let patch: Vec<u8> = (0..f.width).map(|i| ((v >> (8 * i)) & 0xFF) as u8).collect();
-                        let mut cc = c.clone();
-                        cc["id"] = json!(format!("{}|{}={}", id, f.name, v));
-                        cc["mode"] = json!(mode);
-                        cc["patch"] = json!([{"off": f.off, "bytes": patch}]);
-                        cc["meta"] = json!({"gen": "g5a", "field": f.name, "class": f.class, "value": v.to_string(), "was": cur.to_string(), "inflated": v > cur});
-                        out.ev(&cc);
+                        let meta = json!({"gen": "g5a", "field": f.name, "class": f.class, "value": v.to_string(), "was": cur.to_string(), "inflated": v > cur});
+                        if mode == "bytes" {
+                            // compact form: the patched bytes themselves (the trace carries them to TLC anyway)
+                            let mut b = bytes.clone();
+                            for (i, x) in patch.iter().enumerate() {
+                                if f.off + i < b.len() {
+                                    b[f.off + i] = *x;
+                                }
+                            }
+                            out.ev(&json!({"id": format!("{}|{}={}", id, f.name, v), "mode": mode, "hex": hex_encode(&b), "meta": meta}));
+                        } else {
+                            let mut cc = c.clone();
+                            cc["id"] = json!(format!("{}|{}={}", id, f.name, v));
+                            cc["mode"] = json!(mode);
+                            cc["patch"] = json!([{"off": f.off, "bytes": patch}]);
+                            cc["meta"] = meta;
+                            out.ev(&cc);
+                        }
                     }
                 }
             }
